@@ -320,8 +320,9 @@ def gen_numbers(rng, tier):
             xs.append(x if rng.random() < 0.7 else -x)
     for k in range(-323, 309):
         x = float("1e%d" % k)
-        xs += [x, math.nextafter(x, math.inf), math.nextafter(x, 0.0)]
-    step = 1 if big else 3
+        near = big or -30 <= k <= 30 or k % 4 == 0
+        xs += [x] + ([math.nextafter(x, math.inf), math.nextafter(x, 0.0)] if near else [])
+    step = 1 if big else 6
     for k in range(-1074, 1024, step):
         x = math.ldexp(1.0, k)
         xs += [x, math.nextafter(x, math.inf)] + ([math.nextafter(x, 0.0)] if k > -1074 else [])
@@ -332,11 +333,11 @@ def gen_numbers(rng, tier):
         xs += [float(2 ** k), float(2 ** k + 2 ** (k - 52)), -float(3 * 2 ** (k - 1))]
     xs += [float(10 ** k) for k in range(0, 23)] + [float(10 ** k + 10 ** (k - 15)) for k in range(16, 23)]
     # integer-valued and short decimals
-    for _ in range(1500 if not big else 20000):
+    for _ in range(700 if not big else 20000):
         xs.append(float(rng.randrange(-10 ** rng.randrange(1, 17), 10 ** rng.randrange(1, 17))))
         xs.append(rng.randrange(1, 10 ** rng.randrange(1, 8)) / 10 ** rng.randrange(0, 12))
     # random bit patterns, exponent field uniform
-    n_rand = 9000 if not big else 600000
+    n_rand = 3500 if not big else 600000
     for _ in range(n_rand):
         e = rng.randrange(0, 2047)
         m = rng.getrandbits(52)
@@ -352,7 +353,7 @@ def gen_numbers(rng, tier):
         xs.append(bits_to_float((rng.getrandbits(1) << 63) | (e << 52) | m))
     # the ES6 switch regions 1e-7..1e-5 and 1e20..1e22, and repr's 1e-5..1e-3, 1e15..1e17
     for lo, hi in ((1e-8, 1e-5), (1e19, 1e23), (1e-6, 1e-2), (1e14, 1e18)):
-        for _ in range(400 if not big else 20000):
+        for _ in range(300 if not big else 20000):
             xs.append(math.exp(rng.uniform(math.log(lo), math.log(hi))) * rng.choice((1, -1)))
     return xs
 
@@ -469,7 +470,7 @@ FIXED_DOCS = [
 
 def gen_docs(rng, tier, numbers, ints):
     finite = [x for x in numbers if x == x and x not in (math.inf, -math.inf)]
-    n = 1500 if tier != "thorough" else 40000
+    n = 1000 if tier != "thorough" else 40000
     groups = []          # list of lists of values (first = base, rest = deep shuffles)
     for v in FIXED_DOCS:
         groups.append([v])
